@@ -4,6 +4,7 @@ Runs every claimed property's quick check with --repo-src on the copy (evidence 
 import os, sys, json, subprocess, shutil, tempfile, concurrent.futures as cf
 V=os.path.dirname(os.path.dirname(os.path.abspath(__file__)))
 props=[c['property_id'] for c in json.load(open(V+'/MANIFEST.json'))['checks']]
+if os.environ.get('PE_PROPS'): props=[p for p in props if p in os.environ['PE_PROPS'].split(',')]
 def one(pd):
     d=tempfile.mkdtemp(prefix='pe_')
     try:
